@@ -237,14 +237,16 @@ def generic_cases(rng, tier):
 
 def fwd_cases(rng, tier):
     """'104 <handle> | calls': #[cglue_forward] — Fwd(&mut T), Fwd(Box<T>) and opaque objects around a Fwd(&mut T) (harness/prog/src/fwd.rs)"""
-    fixed = [[0, 1], [0, 9], [1, 2, 77], [1, 8, 1], [0, 2], [2, 3], [0, 2], [2, 0], [0, 0], [3], [2, 5], [4, 0, 4, 9], [4, 4, 0, 9], [4, 1, 7, 3], [0, 0], [5, 255], [5, 70000], [5, 3]]
+    fixed = [[0, 1], [0, 9], [1, 2, 77], [1, 8, 1], [0, 2], [2, 3], [0, 2], [2, 0], [0, 0], [3], [2, 5], [4, 0, 4, 9], [4, 4, 0, 9], [4, 1, 7, 3], [0, 0], [5, 255], [5, 70000], [5, 3], [6, 9], [7], [0, 0], [6, 1]]
     cases = ["104 %d | %s" % (k, " ; ".join(" ".join(map(str, o)) for o in fixed)) for k in (0, 1, 2, 3)]
     n = 40 if tier == "quick" else 1000
     for _ in range(n):
         ops = []
         for _ in range(rng.range(1, 30)):
-            c = rng.below(6)
-            if c == 0: ops.append([0, rng.range(0, 6)])
+            c = rng.below(8)
+            if c == 6: ops.append([6, rng.range(0, 1000)])
+            elif c == 7: ops.append([7])
+            elif c == 0: ops.append([0, rng.range(0, 6)])
             elif c == 1: ops.append([1, rng.range(0, 6), rng.range(0, 2 ** 32 - 1)])
             elif c == 2: ops.append([2, rng.range(0, 7)])
             elif c == 3: ops.append([3])
@@ -257,7 +259,7 @@ def fwd_cases(rng, tier):
 def life_cases(rng, tier, with_borrowed=True):
     cases = ["106 | 0 1 ; 1 0 ; 2 0 ; 2 0 ; 7 1 ; 4 0 ; 1 3 ; 7 3", "106 | 0 1 ; 5 0", "106 | 8 5 ; 6 0 ; 6 1 ; 7 0", "106 | 10 7 1 ; 11 0 ; 6 1 ; 12 1 ; 11 3",
              "106 | 10 7 0 ; 11 0", "106 | 13 4 ; 14 5", "106 | 0 2 ; 2 0 ; 5 0 ; 1 1", "106 | 15 -77 ; 1 0 ; 7 0", "106 | 15 -77 ; 15 -77 ; 7 1",
-             "106 | 10 7 1 ; 16 0", "106 | 10 7 0 ; 17 0 ; 1 1", "106 | 10 7 1 ; 11 0 ; 6 1 ; 16 1 ; 17 2", "106 | 10 7 1 ; 11 0 ; 12 1 ; 16 2"]
+             "106 | 10 7 1 ; 16 0", "106 | 10 7 0 ; 17 0 ; 1 1", "106 | 0 4 ; 18 0 ; 18 0 ; 7 1 ; 7 0 ; 7 2", "106 | 10 7 1 ; 19 0 ; 11 0 ; 19 2 ; 7 1", "106 | 10 7 1 ; 11 0 ; 6 1 ; 16 1 ; 17 2", "106 | 10 7 1 ; 11 0 ; 12 1 ; 16 2"]
     if with_borrowed:
         cases.append("106 | 9 3 ; 3 0 ; 3 0 ; 3 0")
     n = 300 if tier == "quick" else 6000
@@ -282,12 +284,12 @@ def life_cases(rng, tier, with_borrowed=True):
                 ops.append([rng.choice([13, 14]), 50 + nid]); nid += 1
                 continue
             if r < 32:   # ill-targeted stream
-                ops.append([rng.choice([1, 2, 4, 5, 6, 7, 11, 12, 16, 17]), rng.range(0, len(kinds))])
+                ops.append([rng.choice([1, 2, 4, 5, 6, 7, 11, 12, 16, 17, 18, 19]), rng.range(0, len(kinds))])
                 continue
             h = rng.choice(live)
             k = kinds[h]
             if k == "N":
-                c = rng.choice([1, 2, 2, 4, 5, 7])
+                c = rng.choice([1, 2, 2, 18, 18, 4, 5, 7])
             elif k == "H":
                 c = rng.choice([1, 7])
             elif k == "C":
@@ -295,11 +297,11 @@ def life_cases(rng, tier, with_borrowed=True):
             elif k == "R":
                 c = rng.choice([3, 3, 7])
             elif k in ("G0", "G1"):
-                c = rng.choice([1, 11, 11, 7, 16, 17])
+                c = rng.choice([1, 11, 11, 7, 16, 17, 19])
             else:
-                c = rng.choice([1, 6, 6, 12, 7, 16, 17])
+                c = rng.choice([1, 6, 6, 12, 7, 16, 17, 19])
             ops.append([c, h])
-            if c == 2: kinds.append("H")
+            if c in (2, 18, 19): kinds.append("H")
             elif c in (4, 17): kinds[h] = "D"; kinds.append("H")
             elif c in (5, 7, 16): kinds[h] = "D"
             elif c == 6: kinds.append(k)
